@@ -294,6 +294,11 @@ def check(plan):
     h = H["procs"][0]
     S0, S1 = H["initial"], h["snap"]
     entry = plan["entry"]
+    probes["cli_options_from_config_file"] = int(entry == "cli" and bool(plan["knobs"].get("cli_style", 0) & 8))
+    probes["root_logger_debug"] = int(plan["knobs"].get("log_level") == "DEBUG")
+    probes["leftover_map_of_own_addresses"] = int(bool(plan["dump"]) and "\t" in str(plan["xdisk"]["files"].get(plan["dump"], ""))
+                                                  and not str(plan["xdisk"]["files"].get(plan["dump"], "")).startswith("0.0.0.0"))
+    probes["leftover_output_undecodable"] = int(any("\xff" in str(v) or "\xe2\x82" in str(v) for v in plan["xdisk"]["files"].values()))
     in_rel, out_rel, dump = plan["in"], plan["out"], plan["dump"]
     single = in_rel in S0["files"]
     o = plan["opts"]
